@@ -81,3 +81,39 @@ func count(recs []string, prefix string) int {
 	}
 	return n
 }
+
+// NormLine canonicalises an outgoing line where the protocol leaves the client a choice of spelling that no
+// property fixes: a one-word trailing parameter may be sent with or without the colon (PONG tok / PONG :tok),
+// the two middle parameters of USER are arbitrary (mode / unused), CAP LS may carry a version.
+func NormLine(l string) string {
+	f := strings.SplitN(l, " ", 2)
+	switch f[0] {
+	case "PONG", "PING":
+		if len(f) == 2 && !strings.HasPrefix(f[1], ":") && !strings.Contains(f[1], " ") && f[1] != "" {
+			return f[0] + " :" + f[1]
+		}
+	case "USER":
+		if i := strings.Index(l, " :"); i >= 0 {
+			mid := strings.Fields(l[:i])
+			if len(mid) == 4 {
+				return "USER " + mid[1] + " * * " + l[i+1:]
+			}
+		}
+	case "CAP":
+		if l == "CAP LS" || strings.HasPrefix(l, "CAP LS ") {
+			return "CAP LS"
+		}
+	}
+	return l
+}
+
+// HasLine reports whether the (normalised) line is among the lines.
+func HasLine(lines []string, want string) bool {
+	w := NormLine(want)
+	for _, l := range lines {
+		if NormLine(l) == w {
+			return true
+		}
+	}
+	return false
+}
